@@ -9,7 +9,7 @@ K5 line driver for the link model.
   work <queue>                       -> <src>:<dst>:<seq> | empty
   release <link> <k>                 -> deliver k frames of the link, then let every queue worker run dry
                                         (queues in index order); prints the messages routed: src:dst:seq,...
-  join <link> | drop <index>         -> pool=<ids>
+  join <link> | drop <index> | redial <index> <link>   -> pool=<ids>
   byte <id>                          -> the order byte derived from an id
   nq <poolSize>                      -> number of receive queues NewConnection creates
 -/
@@ -67,6 +67,10 @@ def line (s : St) (l : String) : St × String :=
     match i.toNat? with
     | some i => let s' := step s (.drop i); (s', s!"pool={showNatList s'.pool}")
     | none => (s, "bad-op")
+  | ["redial", i, l] =>
+    match i.toNat?, l.toNat? with
+    | some i, some l => let s' := step s (.redial i l); (s', s!"pool={showNatList s'.pool}")
+    | _, _ => (s, "bad-op")
   | ["nq", p] =>
     match p.toNat? with
     | some p => (s, s!"{recvQueues p}")
